@@ -546,9 +546,10 @@ class CompleteStageHandler(
                 self._invoke_task_cleanup(stage)
                 self.run_stage_finalizers(stage)
 
-                # Atomic: store stage + cancel + complete workflow
+                # Atomic: store stage + failure event + cancel + complete workflow
                 with self.repository.transaction(self.queue) as txn:
                     txn.store_stage(stage)
+                    self._record_completion_event(stage, WorkflowStatus.TERMINAL)
                     txn.push_message(
                         CancelStage(
                             execution_type=message.execution_type,
